@@ -25,6 +25,7 @@ class Unit:
         self.proves = []
         self.assumes = []
         self.verus_args = []
+        self.refine = []  # (function, args): re-verified alone with other solver options; its verdict replaces the main pass's
 
 
 def parse_bt(s):
@@ -122,6 +123,11 @@ def build_unit(name):
         if d == "include":
             inc = open(os.path.join(OVERLAY_DIR, arg)).read().split("\n")
             raw[i:i + 1] = inc
+            continue
+        if d == "verus_refine":
+            parts = arg.split()
+            u.refine.append((parts[0], parts[1:]))
+            i += 1
             continue
         if d == "verus_args":
             u.verus_args += arg.split()
@@ -343,6 +349,33 @@ def run_unit(name, prop):
 
     exts = fn_extents(text)
     lines = text.split("\n")
+    # refinement passes: a function verified alone with its own solver options (the main pass's diagnostics inside it are dropped)
+    for (rfn, rargs) in u.refine:
+        span = [(a, b) for (fname, a, b, isp) in exts if fname == rfn]
+        if not span:
+            return undecided("verus_refine: function %s not found" % rfn)
+        cmd2 = ["verus", gpath, "--multiple-errors", "50", "--error-format=json", "--verify-root", "--verify-function", rfn] + rargs
+        try:
+            p2 = subprocess.run(cmd2, stdout=subprocess.PIPE, stderr=subprocess.PIPE, text=True, timeout=900, cwd=gdir, env=vlib.ENV)
+        except subprocess.TimeoutExpired:
+            return undecided("verus timed out on %s" % rfn)
+        open(gpath + ".stderr", "a").write(p2.stderr)
+        res["cmd"] += " ;; verus <unit> --verify-function %s %s" % (rfn, " ".join(rargs))
+        (a, b) = span[0]
+        diags = [d for d in diags if not any(a <= s["line_start"] <= b for s in d.get("spans", []) if s.get("is_primary"))]
+        ok_line = False
+        for l in (p2.stderr + p2.stdout).splitlines():
+            if "verification results" in l:
+                ok_line = True
+            if l.startswith("{"):
+                try:
+                    d = json.loads(l)
+                except Exception:
+                    continue
+                if d.get("level") == "error" and not d.get("message", "").startswith("aborting due to"):
+                    diags.append(d)
+        if not ok_line:
+            return undecided("refinement pass for %s gave no verdict" % rfn)
 
     def tags_in(a, b):
         found = []
